@@ -161,7 +161,18 @@ def fam_storage(rnd: random.Random, ninputs: int = 10, transient: bool = False):
                 return ("arr", twin(L[1]), w(L[2]))
             return ("off", twin(L[1]), L[2])
 
-        locs.append(twin(rnd.choice(symlocs)))
+        # (a concrete array element is recognised within the 2^16 window of its hash only - recorded finding
+        #  hash-offset-window - so a twin whose concrete parts leave that window is not generated)
+        def reach_all(L):
+            if L[0] == "slot":
+                return True
+            if loc_concrete(L) and not const_in_reach(L):
+                return False
+            return reach_all(L[2] if L[0] == "map" else L[1])
+
+        tw = twin(rnd.choice(symlocs))
+        if reach_all(tw):
+            locs.append(tw)
     st, ld = ("TSTORE", "TLOAD") if transient else ("SSTORE", "SLOAD")
     body = []
     out = 0
@@ -197,6 +208,18 @@ def fam_storage(rnd: random.Random, ninputs: int = 10, transient: bool = False):
         else:
             body += compile_loc(L, rnd, 0, form) + [ld, ("PUSH", 32 * out), "MSTORE"]
             out += 1
+    forked = rnd.random() < 0.5
+    if forked:
+        # a symbolic branch (bit 3 of the last calldata word) before the final reads: both sides go on with the hashes
+        # seen so far - the side that jumps is a copy of the state - and what one side stores the other does not see
+        lab = "sfork"
+        L = rnd.choice(locs)
+        body += [("PUSH", 32 * (nin - 1)), "CALLDATALOAD", ("PUSH", 8), "AND", ("PUSHL", lab), "JUMPI"]
+        # (a hash first computed inside the branch is not known to the side that skips it: see seen_runtime above)
+        keep = set(seen_runtime)
+        body += [("PUSH", 0x5A)] + compile_loc(L, rnd, 0, pick_form(L)) + [st, ("LABEL", lab)]
+        seen_runtime.clear()
+        seen_runtime.update(keep)
     # epilogue: read every location again, each in a possibly different syntactic form
     for L in locs:
         form = pick_form(L)
@@ -227,4 +250,8 @@ def fam_storage(rnd: random.Random, ninputs: int = 10, transient: bool = False):
             inputs.append({nm: rnd.choice(small) for nm in names})  # colliding keys / indices
         else:
             inputs.append({nm: rnd.choice([0, 1, 143, 2**160 - 1, 2**255, rnd.getrandbits(256)]) for nm in names})
+    if forked:
+        # the jumping side of the final branch, on the colliding domain
+        for _ in range(3):
+            inputs.append({nm: rnd.choice(small) + (8 if nm == names[-1] else 0) for nm in names})
     return prog, inputs
